@@ -45,6 +45,12 @@ def jobs(tier):
                     out.append(("v%d.%s.P16384.%s.%s" % (version, shape, "-".join(k[0] for k in dmg), cpath), "job_recheck",
                                 dict(prop="C16", version=version, shape=shape, P=16384, K=1, dmg=dmg, source="ref", cpath=cpath)))
         out.append(("v%d.flat2.same-checker-twice" % version, "job_twice", dict(version=version)))
+    for source in ("ref", "own"):       # piece-aligned v1 metafiles (padding entries between the files)
+        for dmg in (["intact", "flip"], ["flip", "intact"], ["trunc", "intact"], ["intact", "missing"]):
+            out.append(("v1.flat2.P16384.aligned.%s.%s" % (source, "-".join(k[0] for k in dmg)), "job_recheck",
+                        dict(prop="C16", version=1, shape="flat2", P=16384, K=2, dmg=dmg, source=source, aligned=True)))
+        out.append(("v1.nested3.P16384.aligned.%s.i-i-f" % source, "job_recheck",
+                    dict(prop="C16", version=1, shape="nested3", P=16384, K=1, dmg=["intact", "intact", "flip"], source=source, aligned=True)))
     out.extend(rk.matrix_rows(tier, "C16"))
     # a v1 file list in an order other tools write: the files of one directory are not next to each other
     for dmg in (["intact", "intact", "intact"], ["intact", "flip", "intact"], ["missing", "intact", "intact"], ["intact", "intact", "trunc"]):
